@@ -257,6 +257,17 @@ def cases(rng, tier):
     out += _filter_cases(rng, nfilter)
     if MODEL_KINDS_READY:
         out += _model_cases(rng, nmodel)
+    # directed: the early exits of the binary fast path (C-contiguous 2-D bool image; empty / centre-only element) and
+    # of the generic kernels (same elements, other dtypes): the output must be written before returning
+    for fn in ('mahotas.erode', 'mahotas.dilate', 'mahotas.open', 'mahotas.close'):
+        if fn not in catalog.ENTRIES:
+            continue
+        for fill in ('zeros', 'centre'):
+            for dt, shape in (('bool', [rng.randint(2, 9), rng.randint(2, 9)]), (rng.choice(['uint8', 'int16', 'bool']), [rng.randint(1, 6) for _ in range(rng.choice([1, 2, 3]))])):
+                bs = [rng.choice([1, 3, 3, 2]) for _ in shape]
+                out.append(dict(kind='sweep', call=dict(fn=fn, kw={}, args=[
+                    catalog.A(dtype=dt, shape=shape, fill='bool' if dt == 'bool' else 'rand', seed=rng.randrange(1 << 30), layout='C'),
+                    catalog.A(dtype=dt, shape=bs, fill=fill, seed=0, layout='C')])))
     fns = sorted(f for f in catalog.ENTRIES if f not in catalog.PURE_PYTHON)
     for i in range(nsweep):
         fn = fns[i % len(fns)] if i < 4 * len(fns) else rng.choice(fns)      # every entry point at least four times
